@@ -53,4 +53,10 @@ Cases == UNION { { MdCase(l, md[1], md[2], n, t) : l \in Layouts, n \in RefDaysF
          \cup { WdCase(w, n, t) : w \in 1..7, n \in WeekRefDays, t \in RefTimes }
          \cup UNION { { MdCaseC(cul, OtherMdText(cul, md[1], md[2]), md[1], md[2], n, t) : cul \in OtherCultures, n \in RefDaysFor(md), t \in RefTimes } : md \in OtherMonthDays }
          \cup { WdCaseC(cul, WeekdayName(cul)[w], w, n, t) : cul \in OtherCultures, w \in 1..7, n \in WeekRefDays, t \in RefTimes }
+         (* numeric day/month without a year in the day-first cultures (3/12 = 3 December), Dutch also with a dot *)
+         \cup UNION { { MdCaseC(cul, ToString(md[2]) \o "/" \o ToString(md[1]), md[1], md[2], n, t) : cul \in OtherCultures \ {"zh-cn"}, n \in RefDaysFor(md), t \in RefTimes } : md \in OtherMonthDays }
+         \cup UNION { { MdCaseC("nl-nl", ToString(md[2]) \o "." \o ToString(md[1]), md[1], md[2], n, t) : n \in RefDaysFor(md), t \in RefTimes } : md \in { x \in OtherMonthDays : "nl-nl" \in OtherCultures } }
+         (* a reference with a sub-second part, as datetime.now() has *)
+         \cup { [WdCaseC(cul, (IF cul = "en-us" THEN WeekdayEn[w] ELSE WeekdayName(cul)[w]), w, n, <<14, 5, 59>>) EXCEPT !.ref = @ \o ".250000"]
+                 : cul \in {"en-us"} \cup (OtherCultures \cap {"zh-cn", "fr-fr"}), w \in 1..7, n \in WeekRefDays }
 =============================================================================
